@@ -91,15 +91,40 @@ const maxRefSteps = 3_000_000
 
 // judge compares one engine run with the reference rewriting of src.
 func judge(c *gen.Change, pat *ref.Pattern, src string, run engineRun) semVerdict {
+	return judgeSeq([]*ref.Pattern{pat}, src, run)
+}
+
+// judgeSeq judges a patch made of several changes applied in order. Stages after the first
+// are only judged when the earlier stages left no don't-care alternatives.
+func judgeSeq(pats []*ref.Pattern, src string, run engineRun) semVerdict {
 	var v semVerdict
 	in, _, _, err := ref.ParseFile([]byte(src), false)
 	if err != nil {
 		v.Inconcl = "generated source does not parse: " + err.Error()
 		return v
 	}
+	pat := pats[len(pats)-1]
+	cur := in.Tree
+	for _, p := range pats[:len(pats)-1] {
+		rw0 := ref.NewRewriter(p, false)
+		cur = rw0.Rewrite(cur)
+		if rw0.St.Unbound || rw0.St.Nested > 0 || rw0.St.Later > 0 || rw0.M.Steps > maxRefSteps {
+			v.Inconcl = "earlier change leaves don't-care alternatives"
+			return v
+		}
+		v.Stats.Sites += rw0.St.Sites
+		v.Stats.Misfit += rw0.St.Misfit
+		v.Stats.SiteKinds = append(v.Stats.SiteKinds, rw0.St.SiteKinds...)
+	}
+	pre := v.Stats
 	rw := ref.NewRewriter(pat, false)
-	exp := rw.Rewrite(in.Tree)
+	exp := rw.Rewrite(cur)
 	v.Stats = rw.St
+	rw.St.Sites += pre.Sites
+	rw.St.Misfit += pre.Misfit
+	v.Stats.Sites += pre.Sites
+	v.Stats.Misfit += pre.Misfit
+	v.Stats.SiteKinds = append(pre.SiteKinds, v.Stats.SiteKinds...)
 	if rw.St.Unbound {
 		v.Inconcl = "plus side uses something the minus side does not bind"
 		return v
@@ -112,6 +137,7 @@ func judge(c *gen.Change, pat *ref.Pattern, src string, run engineRun) semVerdic
 		v.Inconcl = "replacement exposes a composite literal in a control clause"
 		return v
 	}
+	printerLoses := ref.PrinterLosesParens(exp)
 	exp = ref.StripParens(exp)
 	v.Out = run.Out
 	if run.Pan != "" {
@@ -148,8 +174,13 @@ func judge(c *gen.Change, pat *ref.Pattern, src string, run engineRun) semVerdic
 		v.Detail = fmt.Sprintf("imports %v -> %v", in.Imports, out.Imports)
 		return v
 	}
+	if printerLoses {
+		v.Class = "printer-drops-needed-parens"
+		v.Detail = "the rewritten tree needs parentheses that go/printer does not add (dereference of a binary expression, or chan of <-chan); first difference: " + ref.FirstDiff(out.Tree, exp, "")
+		return v
+	}
 	grw := ref.NewRewriter(pat, true)
-	gexp := ref.StripParens(grw.Rewrite(in.Tree))
+	gexp := ref.StripParens(grw.Rewrite(cur))
 	switch {
 	case ref.Matches(out.Tree, gexp):
 		v.Class = "needs-later-occurrence"
